@@ -335,6 +335,9 @@ fn mon_c05(snap: &Snap, limit: usize, armed: &mut BTreeMap<String, u64>) -> Vec<
                 dispatches_in_turn.clear();
             }
             Rec::AcceptTokens(t) => turn_tokens = t.clone(),
+            // what the loop really took off its queue in this turn (interests pushed by other
+            // actors while the turn ran included)
+            Rec::AcceptProcessed(p) => turn_queue = p.clone(),
             Rec::Dispatch { conn, .. } => dispatches_in_turn.push((*step, *conn)),
             Rec::AcceptState { .. } | Rec::AcceptExited => {
                 let end_paused = if let Rec::AcceptState { paused: p, .. } = r { *p } else { paused };
@@ -823,7 +826,7 @@ impl Spec for SpecImpl {
     }
     fn name(&self) -> String {
         format!(
-            "W={} listeners={:?} L={} N={} cmds={} adv={} inj={} kills={} nested={}",
+            "W={} listeners={:?} L={} N={} cmds={} adv={} inj={} kills={} nested={}{}",
             self.cfg.workers,
             self.cfg.listeners.iter().map(explore::lkind_name).collect::<Vec<_>>(),
             self.cfg.limit,
@@ -832,7 +835,8 @@ impl Spec for SpecImpl {
             self.bounds.max_advances,
             self.bounds.max_injects,
             self.bounds.kills,
-            self.bounds.nested
+            self.bounds.nested,
+            if self.bounds.nested_generic > 0 { format!(" generic-nesting={}", self.bounds.nested_generic) } else { String::new() }
         )
     }
     fn check(&self, snap: &Snap, armed: &mut BTreeMap<String, u64>) -> Vec<(String, String)> {
@@ -1001,6 +1005,23 @@ fn specs_for(prop: &'static str, tier: Tier) -> Vec<SpecImpl> {
         }
         _ => {}
     }
+    // generic nesting: at every preemption point every sequence (up to the given length) of
+    // internal events of other actors that is enabled at that moment - no candidate lists
+    let g = |quick: usize, thorough: usize| if q { quick } else { thorough };
+    match prop {
+        "C01" => v.push(mk(cfg(2, &[Uds], 1), Bounds { connects: g(2, 3), nested_generic: 2, ..Default::default() })),
+        "C02" => v.push(mk(cfg(2, &[Uds], 1), Bounds { connects: 3, nested_generic: g(2, 3), ..Default::default() })),
+        "C03" => v.push(mk(cfg(1, &[Uds], 1), Bounds { connects: 3, nested_generic: g(2, 3), ..Default::default() })),
+        "C04" => v.push(mk(cfg(2, &[Uds], 1), Bounds { connects: 3, nested_generic: g(2, 3), ..Default::default() })),
+        "C05" => v.push(mk(cfg(1, &[Uds], 2), Bounds { connects: 2, cmds: vec![Ev::Pause, Ev::Resume], max_cmds: 2, nested_generic: g(2, 3), ..Default::default() })),
+        "C06" => {
+            v.push(mk(cfg(1, &[Uds], 2), Bounds { connects: 1, cmds: vec![Ev::Stop(true)], max_cmds: 1, advances: vec![1000], max_advances: 2, nested_generic: 3, ..Default::default() }));
+            v.push(mk(cfg(2, &[Uds], 1), Bounds { connects: 2, cmds: vec![Ev::Stop(true), Ev::Stop(false)], max_cmds: 1, advances: vec![1000], max_advances: 2, nested_generic: g(2, 3), ..Default::default() }));
+        }
+        "C07" => v.push(mk(Config { log_ready: true, ..cfg(1, &[Uds], 8) }, Bounds { connects: 2, modes: vec![Mode::Ready, Mode::Pending, Mode::ErrOnce], max_mode_changes: 1, nested_generic: g(2, 3), ..Default::default() })),
+        "C08" => v.push(mk(cfg(2, &[Uds], 1), Bounds { connects: 2, kills: 1, nested_generic: g(2, 3), ..Default::default() })),
+        _ => {}
+    }
     v
 }
 
@@ -1088,7 +1109,16 @@ pub fn run(args: &Args) -> i32 {
     if prop == "C04" {
         availability_differential(&mut rep);
     }
-    let specs = specs_for(prop, args.tier);
+    let mut specs = specs_for(prop, args.tier);
+    if let Some(g) = args.opts.get("generic").and_then(|g| g.parse::<usize>().ok()) {
+        // experiment switch: generic nesting of this depth on every configuration
+        for s in specs.iter_mut() {
+            s.bounds.nested_generic = g;
+        }
+    }
+    if let Some(only) = args.opts.get("only").and_then(|g| g.parse::<usize>().ok()) {
+        specs = specs.into_iter().enumerate().filter(|(i, _)| *i == only).map(|(_, s)| s).collect();
+    }
     let wall_cap = Duration::from_secs(args.opt_usize("wallcap", args.tier.pick(120, 1800)) as u64);
     let per_spec_cap = wall_cap / specs.len().max(1) as u32;
     let mut total_states = 0;
@@ -1113,7 +1143,7 @@ pub fn run(args: &Args) -> i32 {
         any_capped |= stats.capped;
         configs.push(json!({
             "config": spec.name(), "states": stats.states, "transitions": stats.transitions, "executions": stats.executions,
-            "nested_transitions": stats.nested_transitions, "discarded_nested_plans": stats.invalid_nested,
+            "nested_transitions": stats.nested_transitions, "discarded_nested_plans": stats.invalid_nested, "discarded_because_join_of_a_mid_step_accept_loop_is_not_representable": stats.unrepresentable_joins,
             "quiescent_states": stats.quiescent_states, "max_depth": stats.max_depth, "capped": stats.capped,
             "monitor_armed": stats.armed, "replay_determinism_checks": stats.replay_checks, "key_differential_checks": stats.key_checks, "distinct_dispatch_logs": stats.distinct_dispatch_logs,
         }));
